@@ -110,6 +110,38 @@ def run(ctx, prog, only=None):
         A.require('%s::is_disjoint/true-iff-no-parameter-set-on-both-sides' % ty, paths, r_formula, replay=REPLAY)
         ctx.samples.append('%s fields compared: %s' % (ty, [fields[i] for i in opt_fields]))
 
+    # ------------------------------------------------------------------------------------------- custom parameters (by name)
+    f = prog.one(r'jws::header::<impl at [^>]*>::is_custom_disjoint$')
+    JH = prog.structs['JwsHeader']
+    ci = JH.index('custom')
+    paths, ex = A.paths(f, inline=r'is_custom_disjoint::\{closure', unwind=2, allow_bound=True)
+    ctx.bounds.append('is_custom_disjoint: at most 2 custom parameters on the left (%d longer paths cut)' % A.last_bound_hits)
+
+    def r_cd(p):
+        if p.kind != 'return':
+            return 'panic ' + p.msg
+        if not isinstance(p.val, VBool):
+            return 'result is not a bool'
+        both = p.took(('field', ('deref', ('leaf', 'self')), ci, ''), 'Some') and p.took(('field', ('deref', ('leaf', 'other')), ci, ''), 'Some')
+        nx = [c for c in p.calls if re.search(r'Iterator>::next$', c.name) and p.took(c, 'Some')]
+        ck = [c for c in p.calls if re.search(r'BTreeMap(<.*>)?::contains_key$', c.name) and mentions(c.args[0], r'^other$')]
+        vals = [c for c in p.calls if re.search(r'BTreeMap(<.*>)?::get$|PartialEq.*>::(eq|ne)$|::values$|::iter$', c.name)]
+        if vals:
+            return 'custom parameters compared by value (%s): a shared *name* is the overlap, whatever the values' % vals[0].name.split('::')[-1]
+        if p.implies(p.val.e):
+            if not both:
+                return None
+            if len(ck) != len(nx):
+                return 'disjoint reported without every name of the left header being looked up in the right one'
+            for n_, c_ in zip(nx, ck):
+                if not any(s_ == ('field', n_.ret, 0, 'Some') for s_ in subterms(c_.args[1])) or not p.took(c_.ret, 'false'):
+                    return 'disjoint reported although a name of the left header is present in the right one (or another key was looked up)'
+            return None
+        if p.implies(z3.Not(p.val.e)):
+            return None if both and ck and p.took(ck[-1].ret, 'true') else 'overlap reported without a shared name'
+        return 'verdict does not follow the name look-ups'
+    A.require('is_custom_disjoint/shared-names-regardless-of-values', paths, r_cd, replay=REPLAY)
+
     # ------------------------------------------------------------------------------------------------------- validate_b64
     f = prog.one(r'(^|::)validate_b64$')
     paths, ex = A.paths(f, inline=r'validate_b64::\{closure#[01]\}$')
